@@ -27,7 +27,8 @@ CFG = dict(
     min_counts={"any": {"cancel_far_future_strict": 20, "release_right_after_schedule": 20, "tasks_pending_at_release": 20,
                         "cancel_from_task_on_scheduler_thread": 10, "final_release_by_client": 20,
                         "cancel_returned_before_task_time_strict": 50,
-                        "release_right_after_last_task_returned_scheduler_empty": 20}},
+                        "release_right_after_last_task_returned_scheduler_empty": 20,
+                        "cancel_and_schedule_from_a_CANCELED_callback": 50}},
 )
 
 META = dict(
